@@ -444,6 +444,21 @@ class Fn:
         if x['kind'] == 'CompoundStmt': return list(x.get('inner', []))
         return [x]
 
+    def resolve_local(self, name, body):
+        """'@intlocal<k>' -> the source name of the k-th integer-typed local declared at the top level of the function body (so that a
+        target can name "the counter" without depending on what the source calls it); anything else is returned unchanged"""
+        m = re.fullmatch(r'@intlocal(\d+)', name)
+        if not m: return name
+        found = []
+        for st in (body[0].get('inner', []) if body else []):
+            if st.get('kind') != 'DeclStmt': continue
+            for d in st.get('inner', []):
+                if d.get('kind') == 'VarDecl' and re.search(r'\b(Index|int|long)\b', d.get('type', {}).get('qualType', '')) and '*' not in d.get('type', {}).get('qualType', ''):
+                    found.append(d.get('name'))
+        k = int(m.group(1))
+        if k >= len(found): raise XlateError(f'no {k}-th integer local in the function body')
+        return found[k]
+
     def tuple_of(self, names, env):
         vals = [env[n][0] if n in env else n for n in names]
         if len(vals) == 1: return vals[0]
@@ -752,7 +767,7 @@ class Fn:
             if self.track_ub: self.flush(o, i); o.add(i, 'ok'); return
             if mode == 'outparams': o.add(i, self.wrap_ok(self.tuple_of(outp, e)))
             elif mode == 'guard': o.add(i, 'Res.ok ()')
-            elif mode == 'state': o.add(i, self.wrap_ok(self.tuple_of(self.cfg['state_out'], e)))
+            elif mode == 'state': o.add(i, self.wrap_ok(self.tuple_of([self.resolve_local(x, body) for x in self.cfg['state_out']], e)))
             else: raise XlateError('control reaches end of value-returning function')
         ss = list(body[0].get('inner', []))
         sl = self.cfg.get('slice')
